@@ -70,7 +70,7 @@ Qed.
 
 (* the packed message is the MTI, then the bitmap - in which, outside the continuation positions, bit i is set iff data
    element i is populated - then the populated data elements in strictly ascending order, each as its field packs *)
-Theorem message_layout S m m' b : bm_auto (ms_bm S) = true -> 1 <= bm_len (ms_bm S) ->
+Theorem message_layout S m m' b f : 1 <= bm_len (ms_bm S) -> (bm_enc (ms_bm S) = EncBinary \/ bm_enc (ms_bm S) = EncHex) -> bm_pref (ms_bm S) = PFixed f ->
   NoDup (m_present m) -> zmem 0 (m_present m) = true ->
   (forall id, zmem id (m_present m) = true -> id = 0 \/ id = 1 \/ (2 <= id /\ bm_is_presence_bit (ms_bm S) id = false)) ->
   m_pack S m = (m', Ok b) ->
@@ -82,17 +82,17 @@ Theorem message_layout S m m' b : bm_auto (ms_bm S) = true -> 1 <= bm_len (ms_bm
     Forall2 (fun id p => exists s st, zlookup id (ms_fields S) = Some s /\ zlookup id (m_fields m) = Some st /\ pack_f s st = Ok p) l parts /\
     (forall i, 2 <= i -> bm_is_presence_bit (ms_bm S) i = false -> bm_isset (m_bm m') i = zmem i (m_present m)).
 Proof.
-  intros Ha HB Hnd H0 Hdom Hp.
-  pose proof (m_pack_bitmap_agrees S m m' b Ha HB Hp) as Hagree.
+  intros HB He Hpf Hnd H0 Hdom Hp.
+  destruct (packed_bitmap_facts S m m' b f HB He Hpf Hp) as (Hagree & _ & _).
   unfold m_pack in Hp. destruct (m_bitmap_content S m) as (Hb1 & Hb2 & Hb3). set (mb := m_bitmap S m) in *.
   destruct (set_bits (ms_bm S) (packable_ids mb) (bm_new (ms_bm S))) as [bm [u|e|p|]] eqn:Es; try (inversion Hp; fail).
-  destruct u. cbv zeta in Hp. injection Hp as Hm' Hpk. subst m'.
+  destruct u. cbv zeta in Hp. injection Hp as Hm' Hpk. subst m'. cbn [with_bm m_bm] in Hagree.
   assert (Hndb : NoDup (m_present mb)) by (unfold mb, m_bitmap; destruct (m_bmcached m); [exact Hnd|cbn; apply NoDup_zadd; exact Hnd]).
   assert (H0b : zmem 0 (m_present mb) = true) by (rewrite Hb3 by lia; exact H0).
   assert (Hposb : forall id, zmem id (m_present mb) = true -> 0 <= id).
   { intros id Hm. destruct (Z.eq_dec id 1) as [->|Hne]; [lia|]. rewrite Hb3 in Hm by exact Hne. destruct (Hdom id Hm) as [->|[->|(H2 & _)]]; lia. }
   destruct (packable_ids_shape (m_present mb) Hndb H0b Hposb) as (l & Hids & Hsorted & Hl).
-  unfold packable_ids in *. rewrite Hids in *. rewrite pack_ids_01 in Hpk by exact Ha.
+  unfold packable_ids in *. rewrite Hids in *. rewrite pack_ids_01 in Hpk.
   destruct (pack_f (FPrim (ms_mti S)) (m_mti (with_bm mb bm))) as [mtib| | |] eqn:Emti; cbn [obind] in Hpk; try discriminate.
   destruct (bm_pack (ms_bm S) bm) as [bmb| | |] eqn:Ebm; cbn [obind] in Hpk; try discriminate.
   destruct (pack_ids S (with_bm mb bm) bm l) as [body| | |] eqn:Ebody; cbn [obind] in Hpk; try discriminate.
@@ -128,4 +128,26 @@ Proof.
     assert (n mod (bm_len (ms_bm S) * 8) = 1); [|lia]. unfold n. rewrite Z.add_comm, Z.mod_add by lia. apply Z.mod_small. lia. }
   rewrite Hz. cbn [orb]. unfold conts, is_cont. rewrite Hn3, Hn4. replace (1 <=? n) with true by (unfold n; nia). cbn [andb Z.eqb].
   replace (1 - 1 <=? j) with true by lia. cbn [andb]. reflexivity.
+Qed.
+
+(* a composite with a (fixed) bitmap of subfields packs to its length prefix, the bitmap - in which bit n is set iff the
+   subfield with the decimal id n is set - and the packed set subfields in the order of the ids *)
+Theorem comp_bitmap_layout pref len b subs set sts bytes0 : wf_pref pref -> bm_auto b = false ->
+  (forall tag, In tag (map fst subs) -> canon tag) ->
+  pack_f (FComp pref len (CBitmap b) subs) (SComp set sts) = Ok bytes0 ->
+  exists pre bmf pbm fields,
+    bytes0 = pre ++ pbm ++ fields /\ bm_pack b bmf = Ok pbm /\ zlen bmf = zlen (bm_new b) /\
+    (forall m, bm_isset bmf m = existsb (fun tag => bmem tag set && (num_of tag =? m)) (ordered_tags (CBitmap b) subs)) /\
+    pack_sel (gop subs) sts (filter (fun tag => bmem tag set) (ordered_tags (CBitmap b) subs)) = Ok fields /\
+    enc_len pref len (zlen (pbm ++ fields)) = Ok pre.
+Proof.
+  intros Hwf Hauto Hcanon Hp. rewrite pack_f_comp in Hp. cbn [comp_pack_body] in Hp.
+  destruct (pack_by_bitmap (gop subs) b (ordered_tags (CBitmap b) subs) set sts (bm_new b)) as [[bmf fields]| | |] eqn:Epb; cbn [obind] in Hp; try discriminate.
+  destruct (bm_pack b bmf) as [pbm| | |] eqn:Epbm; cbn [obind] in Hp; try discriminate.
+  destruct (enc_len pref len (zlen (pbm ++ fields))) as [pre| | |] eqn:Epre; cbn [obind] in Hp; try discriminate.
+  assert (Hcan : forall tag, In tag (ordered_tags (CBitmap b) subs) -> canon tag) by (intros tag Ht; apply Hcanon; apply (proj1 (ordered_tags_In (CBitmap b) subs tag) Ht)).
+  destruct (pack_by_bitmap_spec (gop subs) b Hauto _ set sts (bm_new b) bmf fields Hcan Epb) as (Hlen & Hbits & Hsel & _).
+  exists pre, bmf, pbm, fields. split; [congruence|]. split; [exact Epbm|]. split; [exact Hlen|]. split.
+  - intros m. rewrite Hbits. unfold bm_new. rewrite StateProofs.isset_zeros. reflexivity.
+  - split; [exact Hsel|exact Epre].
 Qed.
